@@ -34,6 +34,7 @@ type Case struct {
 	Block     bool  `json:"block,omitempty"`
 	Ponder    bool  `json:"ponder,omitempty"`     // go ponder ... then ponderhit: the deadline armed at ponderhit is judged
 	PonderOpt bool  `json:"ponder_opt,omitempty"` // the Ponder option is switched on, but the go command is an ordinary timed one
+	Plies     int   `json:"plies,omitempty"`      // the blocking search sits this many plies below the root on the driver's board (as a real search does) while it waits
 }
 
 func limits(c Case) (bool, int64, int64) {
@@ -104,6 +105,7 @@ type mock struct {
 	stopd   time.Duration
 	started chan struct{}
 	stopAt  time.Time
+	plies   int
 }
 
 func (m *mock) Clear()       {}
@@ -117,6 +119,20 @@ func (m *mock) Go(b *board.Board, opts ...search.Option) (chess.Score, move.Move
 	m.soft, m.got = o.SoftTime, true
 	m.start = time.Now()
 	m.mu.Unlock()
+	// a real search works on the board it is given: it sits some plies below the root most of the time
+	type made struct {
+		m move.Move
+		r board.Reverse
+	}
+	var path []made
+	ms := move.NewStore()
+	for i := 0; i < m.plies; i++ {
+		pl := eng.Playable(ms, b)
+		if len(pl) == 0 {
+			break
+		}
+		path = append(path, made{pl[0], b.MakeMove(pl[0])})
+	}
 	if m.started != nil {
 		close(m.started)
 	}
@@ -127,6 +143,9 @@ func (m *mock) Go(b *board.Board, opts ...search.Option) (chess.Score, move.Move
 		m.stopAt = time.Now()
 		m.mu.Unlock()
 	}
+	for i := len(path) - 1; i >= 0; i-- {
+		b.UndoMove(path[i].m, path[i].r)
+	}
 	return 0, move.From(chess.E2) | move.To(chess.E4), 0
 }
 
@@ -134,7 +153,7 @@ func (m *mock) Go(b *board.Board, opts ...search.Option) (chess.Score, move.Move
 // than the remaining time after the ponderhit (the deadline armed at ponderhit is the hard limit).
 func ponderCase(c Case, rec *evid.Rec) error {
 	_, _, hard := limits(c)
-	m := &mock{block: true, started: make(chan struct{})}
+	m := &mock{block: true, started: make(chan struct{}), plies: c.Plies}
 	ses := eng.NewSession(uci.WithSearch(m))
 	ses.Send("setoption name Ponder value true")
 	if c.Stm == 1 {
@@ -240,7 +259,7 @@ func driverCase(c Case, rec *evid.Rec) error {
 func TestC14(t *testing.T) {
 	evid.Main(t, "C14", func(rec *evid.Rec) {
 		margin := int64(uci.TimeSafetyMargin)
-		rec.Rule("exhaustive grid: remaining time 1..400 ms step 1, +-3 around the break points (margin, 2*margin, 4*margin, the points where 4*soft crosses remaining-margin for each increment), decades up to 10^12 (+-1); increments {0..100, decades to 10^9, remaining/8 +-1, remaining/2}; both colours; move time absent / {1, margin-1, margin, margin+1, 1000, 10^7}; opponent clock varied. Random elsewhere (rapid). Oracle = only what the property promises: hard > 0; hard <= remaining; remaining > margin => hard <= remaining - margin (margin read from uci.TimeSafetyMargin); with a move time soft == hard == movetime; changing only the opponent's time/increment does not change the hard deadline (nor the soft target under a move time). Driver leg: with a recording mock search and a fixed move time the SoftTime option passed equals the move time; with a blocking mock and a 40..120 ms clock the stop channel closes (10 s ceiling, three attempts); `go ponder` + `ponderhit` on a blocking mock with an increment far above the remaining time: the stop channel closes within the remaining time + 1.5 s slack (three attempts). Non-trivial = grid point where a clamp is active or a move time is set; distinct by (remaining, inc, movetime, colour)")
+		rec.Rule("exhaustive grid: remaining time 1..400 ms step 1, +-3 around the break points (margin, 2*margin, 4*margin, the points where 4*soft crosses remaining-margin for each increment), decades up to 10^12 (+-1); increments {0..100, decades to 10^9, remaining/8 +-1, remaining/2}; both colours; move time absent / {1, margin-1, margin, margin+1, 1000, 10^7}; opponent clock varied. Random elsewhere (rapid). Oracle = only what the property promises: hard > 0; hard <= remaining; remaining > margin => hard <= remaining - margin (margin read from uci.TimeSafetyMargin); with a move time soft == hard == movetime; changing only the opponent's time/increment does not change the hard deadline (nor the soft target under a move time). Driver leg: with a recording mock search and a fixed move time the SoftTime option passed equals the move time; with a blocking mock and a 40..120 ms clock the stop channel closes (10 s ceiling, three attempts); `go ponder` + `ponderhit` on a blocking mock that sits 0..2 plies below the root on the driver's board, with an increment far above the remaining time and a much larger opponent clock: the stop channel closes within the remaining time + 1.5 s slack (three attempts). Non-trivial = grid point where a clamp is active or a move time is set; distinct by (remaining, inc, movetime, colour)")
 		rec.Assume("hook uci.VerifTimeLimits (build tag verif) forwards to the unexported time control helpers")
 		shard, n := evid.Shard()
 		var rems []int64
@@ -339,7 +358,7 @@ func TestC14(t *testing.T) {
 			if sh%4 != 0 {
 				break
 			}
-			c := Case{Remaining: 100 + int64((int(evid.Seed())*31+97*i)%300), Inc: 8000 + int64(1000*i), OppTime: 60000, OppInc: 0, Stm: i % 2, Driver: true, Ponder: true}
+			c := Case{Remaining: 100 + int64((int(evid.Seed())*31+97*i)%300), Inc: 8000 + int64(1000*i), OppTime: 60000, OppInc: 0, Stm: i % 2, Driver: true, Ponder: true, Plies: (i + 1) % 3}
 			var err error
 			for attempt := 0; attempt < 3; attempt++ {
 				if err = driverCase(c, rec); err == nil {
